@@ -21,7 +21,8 @@ RULE = (
     "everything issued while unwinding), then a new controller, model and optimizer are built on the surviving files "
     "and must (a) read a row-prefix of the uninterrupted history, (b) load model+optimizer of the last recorded "
     "epoch and the model of the best epoch with exactly those epochs' parameters, (c) finish training with a "
-    "byte-identical history; thorough: a second crash at every event of the continuation (crash bound 2). "
+    "byte-identical history; a second crash at every event of the continuation's first update (crash bound 2) - "
+    "thorough: after every first crash; quick: after first crashes that fall between the model and optimizer renames. "
     "Crash-free runs: directory contents after every completed update. A case = (config, metrics, update, event); "
     "distinct by construction; non-trivial = the crash lands after the first and before the last event of the update."
 )
@@ -216,7 +217,7 @@ def recover_and_finish(ctx, c, metrics, root, full, case, second=None, window="o
                     crashed = True
                 except ValueError as ex:
                     if "would overwrite" in str(ex):
-                        return True
+                        return None  # documented refusal: no update to crash in
                     raise
             if crashed:
                 ctx.transitions += 1
@@ -236,6 +237,8 @@ def recover_and_finish(ctx, c, metrics, root, full, case, second=None, window="o
                                type=type(ex).__name__), case, {"epoch": e, "error": str(ex)[-300:]})
             return False
         upd += 1
+    if second is not None:
+        return None  # the continuation had no update in which the second crash could fall
     final = T.csv_text(root)
     want = full["csvs"][-1] if full["csvs"] else None
     if final != want:
@@ -292,7 +295,9 @@ def explore_history(ctx, c, metrics, tier):
             ctx.count("window:" + win)
             ok = recover_and_finish(ctx, c, metrics, root, full, case, None, win, sigx)
             ctx.outcome([ok, fs.crashed_at[0], T.listing(root)])
-            if ok and tier == "thorough":
+            # crash bound 2: everywhere in the thorough tier; in the quick tier after first crashes that leave
+            # a half-renamed checkpoint behind (the window in which a leftover file can mislead the redo)
+            if ok and (tier == "thorough" or win == "between-model-and-optimizer-rename"):
                 # crash bound 2: second crash at every event of the first update of the continuation
                 j = 0
                 while True:
